@@ -2129,3 +2129,104 @@ func checkRingLogicalPositions(p *Prog, res *Result, rule string) {
 		res.und(rule, "ring buffers: wrap function", "-", "no call of a ring's wrap function found")
 	}
 }
+
+// checkRevisionsAreNotPositions (C05-R17): a dimension rule. The ring's positions are counters of events; revisions are
+// not dense (a refused write uses up a revision without producing an event), so no position - argument of the wrap
+// function, slice bound of the backing array, length of the result - may be computed from a revision (the requested one
+// or an event's) by arithmetic. Revisions reach positions only through comparisons (the search).
+func checkRevisionsAreNotPositions(p *Prog, res *Result, rule string) {
+	rings, _ := findRings(p)
+	n := 0
+	for named, rg := range rings {
+		var tainted func(v ssa.Value, d int) bool
+		tainted = func(v ssa.Value, d int) bool {
+			v = resolve(v)
+			if d > 8 {
+				return false
+			}
+			switch x := v.(type) {
+			case *ssa.Parameter:
+				bt, ok := x.Type().Underlying().(*types.Basic)
+				return ok && bt.Kind() == types.Uint64 && x.Parent().Signature.Recv() != nil
+			case *ssa.UnOp:
+				if x.Op == token.MUL {
+					if fa, ok := x.X.(*ssa.FieldAddr); ok {
+						fv := fieldOf(fa)
+						if bt, ok := fv.Type().Underlying().(*types.Basic); ok && bt.Kind() == types.Uint64 && fv.Name() == "Revision" {
+							return true
+						}
+					}
+				}
+			case *ssa.Convert:
+				return tainted(x.X, d+1)
+			case *ssa.BinOp:
+				switch x.Op {
+				case token.ADD, token.SUB, token.MUL, token.QUO, token.REM:
+					return tainted(x.X, d+1) || tainted(x.Y, d+1)
+				}
+			case *ssa.Phi:
+				for _, e := range x.Edges {
+					if tainted(e, d+1) {
+						return true
+					}
+				}
+			}
+			return false
+		}
+		for _, f := range p.AllFuncs {
+			if f.Blocks == nil || f.Synthetic != "" {
+				continue
+			}
+			top := f
+			for top.Parent() != nil {
+				top = top.Parent()
+			}
+			if top.Signature.Recv() == nil {
+				continue
+			}
+			rt := top.Signature.Recv().Type()
+			if pt, ok := rt.(*types.Pointer); ok {
+				rt = pt.Elem()
+			}
+			if rt != types.Type(named) {
+				continue
+			}
+			k := 0
+			for _, b := range f.Blocks {
+				for _, ins := range b.Instrs {
+					var sinks []ssa.Value
+					switch x := ins.(type) {
+					case *ssa.Call:
+						if x.Common().StaticCallee() == rg.wrap && len(x.Common().Args) >= 2 {
+							sinks = append(sinks, x.Common().Args[1])
+						}
+					case *ssa.MakeSlice:
+						sinks = append(sinks, x.Len, x.Cap)
+					case *ssa.Slice:
+						if x.Low != nil {
+							sinks = append(sinks, x.Low)
+						}
+						if x.High != nil {
+							sinks = append(sinks, x.High)
+						}
+					case *ssa.IndexAddr:
+						sinks = append(sinks, x.Index)
+					}
+					for _, sv := range sinks {
+						n++
+						k++
+						construct := fmt.Sprintf("%s: position or size #%d", funcName(top), k)
+						if tainted(sv, 0) {
+							res.bad(rule, construct, p.pos(ins.Pos()), "a position into the event cache (or the size of what is copied out of it) is computed from a revision by arithmetic: revisions are not dense - a refused write uses one up without producing an event - so the replay starts too late (events in the cache are skipped) or the size goes negative")
+						} else {
+							res.ok(rule, construct, p.pos(ins.Pos()), "counters and offsets only; revisions enter through comparisons")
+						}
+					}
+				}
+			}
+		}
+	}
+	if n == 0 {
+		res.und(rule, "ring buffers: positions", "-", "no position or size found in the methods of a ring type")
+	}
+}
